@@ -546,7 +546,14 @@ pub fn unhex(s: &str) -> Vec<u8> {
 /// be stopped).  Honours known findings by signature like every other violation.
 pub fn report_stuck_and_exit(prop: &str, tier: Tier, seed: u64, op: &str, family: &str, input: &[u8], cpu_s: u64, budget_s: u64) -> ! {
     let root = verif_root();
-    let signature = format!("{} does not terminate (CPU-time budget of {} s per call exhausted)", op, budget_s);
+    let (op, mem_bytes) = match op.split_once("|MEM|") {
+        Some((o, b)) => (o, b.parse::<u64>().ok()),
+        None => (op, None),
+    };
+    let signature = match mem_bytes {
+        Some(_) => format!("{} holds more than {} GiB above its baseline (memory not bounded by the input)", op, crate::mon::HARD_CAP_BYTES >> 30),
+        None => format!("{} does not terminate (CPU-time budget of {} s per call exhausted)", op, budget_s),
+    };
     let known = load_known(prop);
     if let Some(k) = known.iter().find(|k| k.signature == signature) {
         println!("KNOWN-FINDING: property={} signature={:?} {}", prop, signature, k.what);
@@ -557,7 +564,10 @@ pub fn report_stuck_and_exit(prop: &str, tier: Tier, seed: u64, op: &str, family
     let _ = std::fs::create_dir_all(&replay_dir);
     let path = replay_dir.join(format!("{}-{}-s{}-stuck.json", prop, tier.name(), seed));
     let body = json!({"property": prop, "tier": tier.name(), "seed": seed, "signature": signature,
-        "detail": format!("{} consumed {} s of CPU time on a {}-byte {} input without returning", op, cpu_s, input.len(), family),
+        "detail": match mem_bytes {
+            Some(b) => format!("{} requested {} bytes above its baseline while decoding a {}-byte {} input; the thread was parked before the operating system had to intervene", op, b, input.len(), family),
+            None => format!("{} consumed {} s of CPU time on a {}-byte {} input without returning", op, cpu_s, input.len(), family),
+        },
         "case": {"op": op, "family": family, "input_len": input.len(), "input_hex": hex(input)}});
     let _ = std::fs::write(&path, serde_json::to_string_pretty(&body).unwrap_or_default());
     let ev_dir = std::env::var("VERIF_EVIDENCE_DIR").map(PathBuf::from).unwrap_or_else(|_| root.join("evidence"));
@@ -567,7 +577,10 @@ pub fn report_stuck_and_exit(prop: &str, tier: Tier, seed: u64, op: &str, family
             "samples": [{"stuck_op": op, "family": family, "input": hex_abbrev(input, 64)}], "violation_signatures": [signature]},
         "wall_s": 0.0, "violations": 1});
     let _ = std::fs::write(ev_dir.join(format!("{}.json", prop)), serde_json::to_string_pretty(&evidence).unwrap_or_default());
-    println!("violation-detail: [{}] {} s of CPU on a {}-byte {} input", signature, cpu_s, input.len(), family);
+    match mem_bytes {
+        Some(b) => println!("violation-detail: [{}] {} bytes requested on a {}-byte {} input", signature, b, input.len(), family),
+        None => println!("violation-detail: [{}] {} s of CPU on a {}-byte {} input", signature, cpu_s, input.len(), family),
+    }
     println!("VIOLATION property={} replay={}", prop, path.display());
     std::process::exit(1);
 }
